@@ -9,7 +9,12 @@ LEVEL_TEXT["C09"] = (
     "const solve (table_raceFree, discipline_exclusive, concurrent_use_safe). Tie: the table's variable/member/method lists are re-extracted from lib/ and "
     "include/ by a source scan on every run (footprint cases); enforced rng interleavings on the real library are predicted bit-exactly by a per-thread "
     "mt19937 model; every thread's final plan-cache keys after a concurrent run are the ones the sequential LRU model computes from its own calls; "
-    "ThreadSanitizer + bit-exact comparison with single-threaded runs over 2..16 barrier-released threads and 41 shared plan objects of every kind. "
+    "ThreadSanitizer + bit-exact comparison with single-threaded runs over 2..16 barrier-released threads and 41 shared plan objects of every kind, "
+    "over seven input classes (unit, subnormal, underflowing, mixed zeros/-0/subnormal elements, rounding ties, near-DBL_MAX, non-finite), with calls that throw "
+    "inside the programs (later valid calls = the program without the failed calls), first plans of lengths above 2^16 created by several threads at once, "
+    "and fresh child processes whose first library calls are made by worker threads; the per-thread floating-point environment (fegetround, MXCSR incl. FTZ/DAZ, "
+    "x87 control word) is read around EVERY library call in every thread (the table says no entry point writes it; `fpenv` cases), and early threads (created "
+    "before the first library call), late threads and nested threads must reproduce bit for bit what the main thread computed before they ran and after they finished. "
     "PARTIAL: the theorems speak about the model; which C++ accesses exist is syntactic extraction + dynamic validation.")
 
 PROPS["C09"] = {
@@ -17,10 +22,21 @@ PROPS["C09"] = {
     "lean_props": "DspVerif.Props.C09",
     "harness": [{"src": "c09.cpp", "cfg": "tsan"},
                 {"src": "c09.cpp", "cfg": "rel", "tiers": ["thorough"]}],
-    "rule": "200 (thorough 2500 under TSan plus 2500 uninstrumented) scenarios of 2..16 threads released from a spin barrier, each thread a random program of 8..40 calls "
+    "rule": "3 (thorough 18) fresh child processes (`--history k`: the first library calls of the process are made by 4..8 worker threads from a barrier — subnormal probe program / "
+            "first plans of lengths above 2^16 incl. primes and products of primes > 251 / throwing first calls — the main thread recomputes single-threaded afterwards); "
+            "2 (24) rounds in which 3 early threads (created before the first library call of the process), a thread created by an early thread, 3 (2..7) late threads and a thread "
+            "created by a late thread evaluate a probe program (every transform kind x 7 input classes, 250..450 calls, half of the threads with throwing calls in between) that the main "
+            "thread evaluated before they started and evaluates again after they finished: all results bit-identical; the floating-point environment (fegetround, MXCSR control bits "
+            "incl. FTZ/DAZ, x87 control word) read before and after every library call in every thread (quick: ~70000 checks) and at start/end of main; "
+            "200 (thorough 2500 under TSan plus 2500 uninstrumented) scenarios of 2..16 threads released from a spin barrier, each thread a random program of 8..40 calls "
             "(fft/ifft/rfft/irfft over small/pow2/composite/prime<=41/prime>41 lengths against 4-entry plan caches, czt, xcorr, welch, resample, FftFilter ctor/process, "
             "own FftPlan ctor/solve, randn/rand/randi/rng, const solve on one of 41 shared FftPlan/FftPlanR/IfftPlan/IfftPlanR/CztPlan objects of every plan kind, built by "
-            "the main thread or by a thread that has ended); variants: all threads run the same program, all threads hammer one shared plan; every call compared bit-exactly "
+            "the main thread or by a thread that has ended); inputs of seven classes built from bit patterns (unit, subnormal 1e-308..1e-321, underflowing products, mixed with zero runs / -0 / "
+            "subnormal / power-of-two elements, rounding ties, near DBL_MAX, inf/NaN elements); in every second scenario 8% / 30% of the calls THROW (irfft with odd n or a wrong number of "
+            "bins, const solve on a shared / own plan with a wrong-size input; in some, the first call of every second thread throws) and every valid call is also compared with the same "
+            "program run without its failing calls; in every second scenario the concurrent run comes first and the single-threaded references afterwards; 2 (62) large scenarios: after small "
+            "calls the first plans of lengths above 2^16 / 2^17 (k*49152, k*65536, 65537, 257*263, 2*65537, ...; fft/ifft/rfft/irfft/xcorr/welch/resample/FftFilter frames) are created by "
+            "2..4 threads at once; variants: all threads run the same program, all threads hammer one shared plan; every call compared bit-exactly "
             "with the same program run alone; 40 (400) enforced interleavings of rng()/rand() over 2..16 threads; source scan of all of lib/ and include/; "
             "distinct = distinct (scenario, thread, call) triples; non-trivial = all",
     "technique": "Lean 4 proof (noninterference by induction on the interleaving over an abstract shared-memory semantics; footprint table as data) + source-scan / "
@@ -30,6 +46,7 @@ PROPS["C09"] = {
                   "shared_ptr reference counts (atomics), the allocator and the C++ memory model are trusted",
     "trusted_base": TB_COMMON + [
         "ThreadSanitizer (clang-14 runtime) as the dynamic race detector; its __tsan_on_report hook attributes reports to scenarios",
+        "fegetround / _mm_getcsr / fnstcw (aarch64: FPCR) as the observation of the per-thread floating-point environment; popen + /proc/self/exe to re-execute the harness as a fresh process",
         "the harness's source scanner (tokeniser + declaration classifier in harness/c09.cpp) decides which variables exist; const-correctness of C++ "
         "(a const member function cannot write a non-mutable member without const_cast) carries 'const solve writes no member' — writes through pointer members "
         "are visible only to TSan / the bit-exact comparison / the plan_members list",
